@@ -101,7 +101,9 @@ def raises_closure(ctx):
                 s.add(rn)
                 sites.setdefault((name, rn), n)
             if isinstance(n, ast.Call) and isinstance(n.func, ast.Name) and n.func.id == 'warn':
-                s.add('UserWarning')
+                from ..effects import warn_category
+                s.add(warn_category(n))
+                sites.setdefault((name, warn_category(n)), n)
         direct[name] = s
     out = {k: set(v) for k, v in direct.items()}
     changed = True
@@ -155,6 +157,7 @@ def run(chk, ctx) -> None:
         chk.ob('C08.query_shape', f'State.{q}', ok and not falls, qf.loc,
                'the query returns True after the verifier passes, False from the handler, nothing else')
     chk.floor('C08.query_shape', 17)
+    _callbacks(chk, ctx)
 
     # ------------------------------------------------------------- forwarding
     n_fw = 0
@@ -597,3 +600,21 @@ def _membership_guarded(loop, call) -> bool:
                             return True
         return False
     return walk(loop.body, False)
+
+
+def _callbacks(chk, ctx) -> None:
+    """the functions the caller supplies (fields annotated Callable: the pot division and the rake) are known by their positional
+    signature only - calling one by keyword makes every query that gets that far raise TypeError for a conforming function"""
+    fields = set()
+    for st in ctx.state.node.body:
+        if isinstance(st, ast.AnnAssign) and isinstance(st.target, ast.Name) and 'Callable' in ast.unparse(st.annotation):
+            fields.add(st.target.id)
+    chk.analysed['callback_fields'] = sorted(fields)
+    n = 0
+    for name, fi in ctx.state.methods.items():
+        for c in walk_no_nested(fi.node):
+            if isinstance(c, ast.Call) and self_attr(c.func) in fields:
+                n += 1
+                chk.ob('C08.callbacks', f'State.{name}:{self_attr(c.func)}', not c.keywords and not any(isinstance(a, ast.Starred) for a in c.args),
+                       ctx.loc(fi, c), f'the caller-supplied `{self_attr(c.func)}` is called with positional arguments only', got=stmt_text(c) if hasattr(c, 'lineno') else None)
+    chk.floor('C08.callbacks', 3)
